@@ -12,71 +12,120 @@ namespace Dsw
 theorem C13_idx_of_kmer (k v : Nat) (h : v < 4 ^ k) :
     (kmerOf k v).length = k ∧ (∀ c ∈ kmerOf k v, (nucIdx c).isSome = true) ∧ kmerIdx (kmerOf k v) = v ∧
     dnaToNumberInt (kmerOf k v) = .ok v := by
-  sorry
+  exact ⟨kmerOf_length k v h, kmerOf_acgt k v h, kmerIdx_kmerOf k v h, by
+    rw [dnaToNumberInt_acgt _ (kmerOf_acgt k v h), kmerIdx_kmerOf k v h]⟩
 
 /-- k-mer → index → k-mer. -/
 theorem C13_kmer_of_idx (s : List Char) (hs : ∀ c ∈ s, (nucIdx c).isSome = true) :
     kmerIdx s < 4 ^ s.length ∧ kmerOf s.length (kmerIdx s) = s := by
-  sorry
+  exact ⟨kmerIdx_lt s, kmerOf_kmerIdx s hs⟩
 
 /-- successor list = drop the first nucleotide, append one, in A,C,G,T order. -/
 theorem C13_latters (k v : Nat) (hk : 1 ≤ k) (h : v < 4 ^ k) :
     obtainLatters k v = "ACGT".toList.map fun c => kmerIdx ((kmerOf k v).tail ++ [c]) := by
-  sorry
+  obtain ⟨k, rfl⟩ : ∃ k', k = k' + 1 := ⟨k - 1, by omega⟩
+  simp only [kmerIdx_snoc, kmerIdx_tail_kmerOf k v h]
+  rw [acgt_map_comp (fun j => v % 4 ^ k * 4 + j)]
+  unfold obtainLatters
+  apply List.map_congr_left
+  intro j hj
+  rw [four_pow_succ, shift_mod _ _ _ (List.mem_range.1 hj)]
 
 /-- predecessor list = drop the last nucleotide, prepend one, in A,C,G,T order. -/
 theorem C13_formers (k v : Nat) (hk : 1 ≤ k) (h : v < 4 ^ k) :
     obtainFormers k v = "ACGT".toList.map fun c => kmerIdx (c :: (kmerOf k v).dropLast) := by
-  sorry
+  obtain ⟨k, rfl⟩ : ∃ k', k = k' + 1 := ⟨k - 1, by omega⟩
+  have hv4 : v / 4 < 4 ^ k := by rw [four_pow_succ] at h; omega
+  simp only [kmerIdx_cons, dropLast_kmerOf k v h, kmerIdx_kmerOf k _ hv4, kmerOf_length k _ hv4]
+  rw [acgt_map_comp (fun j => j * 4 ^ k + v / 4)]
+  unfold obtainFormers
+  apply List.map_congr_left
+  intro j _
+  simp only [Nat.add_sub_cancel]
+  omega
 
 theorem C13_latters_lt (k v : Nat) (hk : 1 ≤ k) : ∀ w ∈ obtainLatters k v, w < 4 ^ k := by
-  sorry
+  have _ := hk
+  intro w hw
+  rcases (mem_obtainLatters k v w).1 hw with ⟨j, _, rfl⟩
+  exact Nat.mod_lt _ (four_pow_pos k)
 
 theorem C13_formers_lt (k v : Nat) (hk : 1 ≤ k) (h : v < 4 ^ k) : ∀ u ∈ obtainFormers k v, u < 4 ^ k := by
-  sorry
+  obtain ⟨k, rfl⟩ : ∃ k', k = k' + 1 := ⟨k - 1, by omega⟩
+  intro u hu
+  rcases (mem_obtainFormers _ v u).1 hu with ⟨j, hj, rfl⟩
+  simp only [Nat.add_sub_cancel]
+  rw [four_pow_succ] at h ⊢
+  have : j * 4 ^ k ≤ 3 * 4 ^ k := Nat.mul_le_mul_right _ (by omega)
+  omega
 
 /-- `u` is a predecessor of `v` exactly when `v` is a successor of `u`. -/
 theorem C13_former_iff_latter (k u v : Nat) (hk : 1 ≤ k) (hu : u < 4 ^ k) (hv : v < 4 ^ k) :
     u ∈ obtainFormers k v ↔ v ∈ obtainLatters k u := by
-  sorry
+  obtain ⟨k, rfl⟩ : ∃ k', k = k' + 1 := ⟨k - 1, by omega⟩
+  rw [mem_obtainFormers, mem_obtainLatters]
+  simp only [Nat.add_sub_cancel]
+  rw [four_pow_succ] at hu hv ⊢
+  constructor
+  · rintro ⟨j, hj, rfl⟩
+    refine ⟨v % 4, by omega, ?_⟩
+    have e : (v / 4 + j * 4 ^ k) * 4 + v % 4 = v + j * (4 * 4 ^ k) := by
+      rw [Nat.add_mul, Nat.mul_assoc, Nat.mul_comm (4 ^ k) 4]; omega
+    rw [e, Nat.add_mul_mod_self_right, Nat.mod_eq_of_lt hv]
+  · rintro ⟨j, hj, rfl⟩
+    rw [shift_mod _ _ _ hj]
+    refine ⟨u / 4 ^ k, ?_, ?_⟩
+    · exact Nat.div_lt_of_lt_mul (by rw [Nat.mul_comm]; exact hu)
+    · have h1 : (u % 4 ^ k * 4 + j) / 4 = u % 4 ^ k := by omega
+      rw [h1, Nat.add_comm, Nat.div_add_mod']
 
 /-- the complete graph holds the j-th successor of every vertex in column j. -/
 theorem C13_complete (k v j : Nat) (h : v < 4 ^ k) (hj : j < 4) :
     (getCompleteAccessor k).ent v j = ((v * 4 + j) % 4 ^ k : Nat) ∧ WFdB k (getCompleteAccessor k) := by
-  sorry
+  refine ⟨?_, wfdb_complete k⟩
+  unfold getCompleteAccessor
+  rw [Acc.ent_range_map _ _ _ _ h]
+  have hj' : j < (obtainLatters k v).length := by rw [obtainLatters_length]; exact hj
+  rw [getD_map_toArray _ _ _ _ hj', obtainLatters_getElem]
+  rfl
 
 /-- every graph the library builds holds in column j either -1 or that successor. -/
 theorem C13_wfdb_induced (k : Nat) (m : Mask) : WFdB k (inducedAccessor k m) := by
-  sorry
+  exact wfdb_induced k m
 
 theorem C13_wfdb_valid_graph (k : Nat) (m : Option Mask) (a : Acc)
     (h : connectValidGraph k m = .ok a) : WFdB k a := by
-  sorry
+  unfold connectValidGraph at h
+  split at h
+  · cases h
+  · split at h
+    · cases h; exact wfdb_induced k _
+    · cases h
 
 /-- `setEnt … (-1)` (used by the cascade and by arc removal) preserves the invariant. -/
 theorem C13_wfdb_setEnt (k : Nat) (a : Acc) (v j : Nat) (h : WFdB k a) : WFdB k (a.setEnt v j (-1)) := by
-  sorry
+  exact wfdb_setEnt k a v j (-1) h (Or.inl rfl)
 
 theorem C13_wfdb_coding_graph (k : Nat) (m : Mask) (t : Nat) (vs : List Nat) (a : Acc)
     (h : connectCodingGraph k m t = .ok (vs, a)) : WFdB k a := by
-  sorry
+  exact wfdb_connectCodingGraph k m t (vs, a) h
 
 theorem C13_wfdb_remove_nasty_arc (k : Nat) (a : Acc) (lm : LMap) (ins del : Bool) (r : RemoveResult)
     (hw : WFdB k a) (h : removeNastyArc a lm ins del = .ok r) : WFdB k r.acc := by
-  sorry
+  exact wfdb_removeNastyArc k a lm ins del r hw h
 
 /-- converting a legal latter map (every listed successor is a shift-successor of its key, keys
 below `4^k`) gives a de Bruijn sub-table. -/
 theorem C13_wfdb_latter_map (k : Nat) (lm : LMap) (a : Acc)
     (hl : ∀ p ∈ lm, p.1 < 4 ^ k ∧ ∀ w ∈ p.2, w ∈ obtainLatters k p.1)
     (h : latterMapToAccessor lm k none = .ok a) : WFdB k a := by
-  sorry
+  exact wfdb_latterMapToAccessor k lm a (fun p hp => (hl p hp).2) h
 
 /-- a matrix is only accepted if every 1 sits on a shift arc, and the result is a de Bruijn
 sub-table (for matrices of size `4^k`). -/
 theorem C13_wfdb_matrix (k : Nat) (mx : Matrix) (a : Acc) (hs : mx.size = 4 ^ k)
     (h : adjacencyMatrixToAccessor mx = .ok a) : WFdB k a := by
-  sorry
+  exact wfdb_adjacencyMatrixToAccessor k mx a hs h
 
 example : wfdbB 2 gcBalanced2 = true := by decide +kernel
 example : obtainFormers 3 27 = [6, 22, 38, 54] ∧ obtainLatters 3 6 = [24, 25, 26, 27] := by decide
